@@ -1,7 +1,7 @@
 #!/bin/bash
 # Regenerate coq/_CoqProject and coq/Makefile from the files present (idempotent).
 set -e
-cd "$(dirname "$0")/../coq"
+cd "${VERIF_COQ:-$(dirname "$0")/../coq}"
 mkdir -p gen
 {
   echo "-R theories PF"
